@@ -1,9 +1,12 @@
 package main
 
 import (
+	"bytes"
 	"fmt"
 	"go/ast"
+	"go/printer"
 	"go/token"
+	"strconv"
 	"strings"
 )
 
@@ -94,6 +97,60 @@ func c07FirstStmt(fd *ast.FuncDecl) string {
 	return "<not a call>"
 }
 
+// c07IfConds renders, in source order, the condition of every if statement of fn.
+func c07IfConds(fset *token.FileSet, fd *ast.FuncDecl) []string {
+	var out []string
+	ast.Inspect(fd.Body, func(n ast.Node) bool {
+		if is, ok := n.(*ast.IfStmt); ok {
+			var b bytes.Buffer
+			if is.Init != nil {
+				printer.Fprint(&b, fset, is.Init)
+				b.WriteString("; ")
+			}
+			printer.Fprint(&b, fset, is.Cond)
+			out = append(out, strings.Join(strings.Fields(b.String()), " "))
+		}
+		return true
+	})
+	return out
+}
+
+// c07Uses counts the uses of the bare identifier name (pkg == "") or of pkg.name in fn.
+func c07Uses(fd *ast.FuncDecl, pkg, name string) int {
+	n := 0
+	ast.Inspect(fd.Body, func(nd ast.Node) bool {
+		switch x := nd.(type) {
+		case *ast.SelectorExpr:
+			if id, ok := x.X.(*ast.Ident); ok {
+				if pkg != "" && id.Name == pkg && x.Sel.Name == name {
+					n++
+				}
+				return false // do not count the Sel of a selector as a bare identifier
+			}
+		case *ast.Ident:
+			if pkg == "" && x.Name == name {
+				n++
+			}
+		}
+		return true
+	})
+	return n
+}
+
+// c07StringLits lists the string literals of fn in source order.
+func c07StringLits(fd *ast.FuncDecl) []string {
+	var out []string
+	ast.Inspect(fd.Body, func(n ast.Node) bool {
+		if bl, ok := n.(*ast.BasicLit); ok && bl.Kind == token.STRING {
+			if v, err := strconv.Unquote(bl.Value); err == nil {
+				out = append(out, v)
+			}
+		}
+		return true
+	})
+	return out
+}
+
 func c07CoqStrings(xs []string) string {
 	q := make([]string, len(xs))
 	for i, x := range xs {
@@ -133,6 +190,15 @@ func init() {
 		fmt.Fprintf(&e.b, "Definition codec_decode_first_stmt : string := %q%%string.\n", c07FirstStmt(decode))
 		// the io.EOF -> EOF conversions: one in Read (length token), one in decode (gob column)
 		fmt.Fprintf(&e.b, "Definition codec_eof_compares : list Z := [%d; %d].\n", c07EofCompares(read), c07EofCompares(decode))
+		// sliceio.EOF (clean end of stream) is produced once, in Read; io.ErrUnexpectedEOF once in each
+		fmt.Fprintf(&e.b, "Definition codec_clean_eof_uses : list Z := [%d; %d].\n", c07Uses(read, "", "EOF"), c07Uses(decode, "", "EOF"))
+		fmt.Fprintf(&e.b, "Definition codec_unexpected_eof_uses : list Z := [%d; %d].\n", c07Uses(read, "io", "ErrUnexpectedEOF"), c07Uses(decode, "io", "ErrUnexpectedEOF"))
+		// every branch condition of Read and decode, in source order
+		fmt.Fprintf(&e.b, "Definition codec_read_if_conds : list string := %s.\n", c07CoqStrings(c07IfConds(p.fset, read)))
+		fmt.Fprintf(&e.b, "Definition codec_decode_if_conds : list string := %s.\n", c07CoqStrings(c07IfConds(p.fset, decode)))
+		// the error texts (the driver recognises "invalid batch length")
+		fmt.Fprintf(&e.b, "Definition codec_read_strings : list string := %s.\n", c07CoqStrings(c07StringLits(read)))
+		fmt.Fprintf(&e.b, "Definition codec_decode_strings : list string := %s.\n", c07CoqStrings(c07StringLits(decode)))
 		// gob calls made by the encoder per batch, in source order
 		fmt.Fprintf(&e.b, "Definition codec_write_enc_calls : list string := %s.\n", c07CoqStrings(c07SelCallsOn(write, "e", "enc")))
 		fmt.Fprintf(&e.b, "Definition codec_decode_dec_calls : list string := %s.\n", c07CoqStrings(c07SelCallsOn(decode, "d", "dec")))
